@@ -14,6 +14,8 @@ HARNESS = {
                 repo=['librfn/hex.c']),
     'bintree': dict(cpp=['h/h_bintree.cpp'], c=['adp/adp_bintree.c'], repo=['librfn/bintree.c', 'librfn/util.c', 'librfn/posix/time_posix.c'],
                     extra_san=['-fno-sanitize=alignment']),
+    'wav': dict(cpp=['h/h_wav.cpp'], c=['adp/adp_wav.c'],
+                repo=['librfn/wavheader.c', 'librfn/pack.c', 'librfn/string.c', 'librfn/util.c', 'librfn/posix/time_posix.c']),
     'list': dict(cpp=['h/h_list.cpp'], c=['adp/adp_list.c'], repo=['librfn/list.c']),
 }
 
@@ -145,6 +147,42 @@ PROPS = {
                  'unpack-null-destination': 1000},
         assumptions=['total requested bytes stay far below 2^31 (scope of the property)',
                      'operations declared in pack.h but not implemented are exercised only if the tree defines them (weak references)'],
+    ),
+    'C13': dict(
+        title='WAV headers round-trip and correctly describe the file they head',
+        rule='forward cases = (format, channels, rate, 0-3 frame counts) within 32-bit size limits over a zeroed / '
+             'random-filled / previously-initialised structure: validate, encode (also into an exact-size block), '
+             'decode == same length and byte-identical structure, all size relations, get_format; reverse cases = '
+             'headers assembled field by field (PCM, float+fact, extensible with/without the 22-byte extension, odd fmt '
+             'sizes, hostile values, truncation, trailing bytes, byte mutations): whenever decode accepts r bytes, '
+             're-encoding gives r and the same bytes with skipped extension bytes zeroed. Non-trivial: forward with '
+             'frames>0 or channels>1 or dirty prior contents; reverse accepted with fact chunk or extension. '
+             'Distinct = distinct tapes.',
+        stages=[
+            dict(h='wav', mode='rc', what='forward + structured reverse', params=dict(oracle=13),
+                 quick=dict(cases=200000, len=200), thorough=dict(cases=5000000, len=200)),
+        ],
+        require={'forward-over-previous-header': 1000, 'forward-frames-set-twice': 1000, 'accepted': 1000,
+                 'accepted-with-fact-chunk': 300, 'accepted-with-extension': 300},
+        assumptions=['byte_rate = rate*block_align is kept below 2^31 (it is computed in int); block_align <= 65535; header+data < 2^32',
+                     'rf_wavheader_t has no padding (checked: 80 bytes), so byte identity of the structure is field identity'],
+    ),
+    'C14': dict(
+        title='Decoding untrusted WAV bytes is memory-safe and reports length faithfully',
+        rule='inputs = field-assembled headers with hostile size fields (0,1,17,18,22,0x7fffffff,0x80000000,0xffffffe4..'
+             '0xffffffff), truncations, trailing bytes, byte mutations, and raw random bytes of length 0..103 (half with '
+             'the magic planted), always in an exactly-sized heap block whose size is the declared length. Oracle: an '
+             'independent 64-bit reference computes the bytes the header occupies (items that do not fit read as zero); '
+             'decode must return <0, or >n only if incomplete, or exactly that length (>=44); every proper prefix of an '
+             'accepted header must not succeed; validate/get_format/tostring must return on every resulting structure '
+             '(signals and sanitizer reports kill the worker and are violations). Non-trivial: length>=44 with the magic '
+             'present. Distinct = distinct tapes.',
+        stages=[
+            dict(h='wav', mode='rc', what='structured + raw untrusted bytes', params=dict(oracle=14),
+                 quick=dict(cases=300000, len=220), thorough=dict(cases=10000000, len=220)),
+        ],
+        require={'length>=44-and-magic-present': 1000, 'accepted': 1000, 'structured-truncated': 1000, 'raw-bytes': 1000},
+        assumptions=['declared lengths stay far below 2^31 (return type int)'],
     ),
     'C16': dict(
         title='Bit-counting helpers equal their mathematical definitions on all inputs',
